@@ -162,7 +162,18 @@ def run_witness(repo=None):
                 f.write(src)
         with open(os.path.join(d, "src", "lib.rs"), "w") as f:
             f.write("pub mod cf;\n")
-        env = dict(os.environ, CARGO_NET_OFFLINE="true", CARGO_TARGET_DIR=os.path.join(extract.CACHE, "target-witness"), RUSTFLAGS="-Awarnings")
+        # scratch trees (mutant / seed worktrees at changing paths) get their own build directory, emptied when it grows: path
+        # dependencies at a new path rebuild everything and would otherwise pile up in the main one
+        scratch = os.path.realpath(repo) != os.path.realpath("/repo")
+        tdir = os.path.join(extract.CACHE, "target-witness-scratch" if scratch else "target-witness")
+        if scratch and os.path.isdir(tdir):
+            try:
+                sz = int(subprocess.run(["du", "-sm", tdir], capture_output=True, text=True).stdout.split()[0])
+            except Exception:
+                sz = 0
+            if sz > 3000:
+                shutil.rmtree(tdir, ignore_errors=True)
+        env = dict(os.environ, CARGO_NET_OFFLINE="true", CARGO_TARGET_DIR=tdir, RUSTFLAGS="-Awarnings")
         env.pop("RUSTC_WORKSPACE_WRAPPER", None)
         res = {"key": key, "groups": {}, "wall_s": 0}
         t0 = time.time()
